@@ -240,6 +240,15 @@ def build(ctx):
     g.ptrace('tr_trexp_se3_rev', [('S', 'V6')], lambda S: base.trexp(T3(S).se3()), [S6],
              num_fn=lambda S: base.trexp(T3(S).se3()), sampler=lambda rng: [rev(rng) * th_main(rng)], tol=1e-10, optional=True)
 
+    # ---- named-axis constructors with a scalar angle (both units) and their exponential
+    a_main = lambda rng: [float(rng.choice([-1, 1]) * rng.uniform(1e-3, 2 * PI))]
+    for nm in ('Rx', 'Ry', 'Rz'):
+        f = getattr(Twist3, nm)
+        g.trace(f'tr_T3_{nm}', [('a', 'S')], (lambda f: lambda a: f(a).S)(f), sampler=a_main)
+        g.trace(f'tr_T3_{nm}_deg', [('a', 'S')], (lambda f: lambda a: f(a, 'deg').S)(f),
+                sampler=lambda rng: [float(rng.uniform(-360, 360))])
+        g.ptrace(f'tr_T3_{nm}_exp', [('a', 'S')], (lambda f: lambda a: base.trexp(f(a).S * 1))(f), [0.7],
+                 num_fn=(lambda f: lambda a: f(a).exp().A)(f), sampler=a_main, tol=1e-10)
     # ---- planar
     a2, q2 = [1.0, 2.0], [0.4, -0.5]
     S3 = [0.4, -0.5, 0.6]
@@ -533,21 +542,53 @@ def case2(ctx, a, q, theta, unit, form):
 
 
 def named_axis(ctx):
-    """Twist3.Rx/Ry/Rz(theta): theta times the unit revolute twist about a coordinate axis through the origin"""
+    """Twist3.Rx/Ry/Rz(theta): theta times the unit revolute twist about a coordinate axis through the origin, for scalar,
+    list and ndarray theta in both units; exp() of it is the elementary rotation"""
     for nm, ax in (('Rx', [1, 0, 0]), ('Ry', [0, 1, 0]), ('Rz', [0, 0, 1])):
         f = getattr(Twist3, nm)
         ref = Twist3.Revolute(ax, [0, 0, 0]).S
-        for th, unit, form in ((0.3, 'rad', 'scalar'), (30.0, 'deg', 'scalar'), ([0.3, -0.4], 'rad', 'list'), ([30.0, 45.0], 'deg', 'list'),
+        for th, unit, form in ((0.3, 'rad', 'scalar'), (30.0, 'deg', 'scalar'), (-2.0, 'rad', 'scalar'), (0.0, 'rad', 'scalar'),
+                               (90, 'deg', 'scalar'), (np.float64(0.3), 'rad', 'scalar'),
+                               ([0.3, -0.4], 'rad', 'list'), ([30.0, 45.0], 'deg', 'list'),
                                (np.array([0.3, -0.4]), 'rad', 'array'), (np.array([30.0, 45.0]), 'deg', 'array')):
             inp = {'constructor': nm, 'theta': np.asarray(th).tolist(), 'unit': unit, 'form': form}
-            c = Chk(ctx, f"Twist3.Rxyz:{form}-theta", inp)
+            c = Chk(ctx, f"Twist3.{nm}:{form}-theta", inp)
             ctx.case(('named', nm, str(th), unit))
-            X = c.call('named-axis', lambda: f(th, unit))
+            X = c.call('coordinate-axis-twist', lambda: f(th, unit))
             if X is None:
                 continue
             ths = np.atleast_1d(np.asarray(th, float)) * (PI / 180 if unit == 'deg' else 1.0)
-            got = np.array([x for x in X.data]) if len(X) > 1 else np.array([X.S])
-            c.near('named-axis', got, np.array([ref * t for t in ths]))
+            c.true('coordinate-axis-twist-length', len(X) == len(ths), f"len={len(X)}")
+            got = np.array([x for x in X.data])
+            c.near('coordinate-axis-twist', got, np.array([ref * t for t in ths]))
+            if len(X) == 1:
+                E = c.call('coordinate-axis-exp', lambda: X.exp())
+                if E is not None:
+                    T = np.eye(4)
+                    T[:3, :3] = rot_from_axis_angle(ax, ths[0])
+                    c.near('coordinate-axis-exp', E.A, T)
+
+
+def multi_scalar(ctx):
+    """scalar * multi-valued twist and multi-valued twist * scalar scale every element"""
+    rng = ctx.rng
+    for k in (2, -3, 0.5, 0.0):
+        for cls, n in ((Twist3, 6), (Twist2, 3)):
+            for M in (2, 3):
+                data = [rng.normal(size=n) for _ in range(M)]
+                inp = {'class': cls.__name__, 'k': k, 'data': [d.tolist() for d in data]}
+                c = Chk(ctx, f"{cls.__name__}:multi", inp)
+                ctx.case(('multi', cls.__name__, k, M, tuple(data[0])))
+                X = c.call('construct', lambda: cls(data))
+                if X is None:
+                    continue
+                for law, fn in (('left-scalar-multi', lambda: k * X), ('right-scalar-multi', lambda: X * k)):
+                    Y = c.call(law, fn)
+                    if Y is None:
+                        continue
+                    c.true(law + '-type-length', type(Y) is cls and len(Y) == M, f"{type(Y).__name__} len={len(Y)}")
+                    if len(Y) == M:
+                        c.near(law, np.array(Y.data), np.array(data) * k)
 
 
 def oracle(ctx):
@@ -574,6 +615,7 @@ def oracle(ctx):
         case3(ctx, a, q, th, unit, form, lams)
         case2(ctx, gen_axis(rng, 2), gen_point(rng, 2), th, unit, form)
     named_axis(ctx)
+    multi_scalar(ctx)
     ctx.sample({'kind': 'oracle', 'case': 'Twist3.Revolute(a,q).exp(theta)', 'a': list(map(float, a)), 'q': list(map(float, q)), 'theta': th, 'unit': unit, 'form': form})
 
 
@@ -624,8 +666,10 @@ def replay(ctx, path):
             case3(ctx, a, q, th, r['unit'], r['form'], fh(r.get('lams_hex', [])) or [0.0, 1.0])
         else:
             case2(ctx, a, q, th, r['unit'], r['form'])
-    elif key.startswith('oracle:named-axis'):
+    elif key.startswith('oracle:coordinate-axis'):
         named_axis(ctx)
+    elif 'scalar-multi' in key:
+        multi_scalar(ctx)
     else:
         run(ctx)
     keys = {f.key for f in ctx.findings} | {'obligation:' + o.name for o in ctx.obligations if o.ok is False}
